@@ -282,7 +282,64 @@ def function_ending_in_intrinsic(r):
     return prog([], [f, g], main, ["tail_position_intrinsic", "called_fn"])
 
 
-ALL = [param_mutation, param_mutation_twice, alias_outlives_source, alias_chain, callee_via_symbolless_function,
+def forlist_inlined_wrapper_calls_out(r):
+    """a loop over a constant list whose body calls a once-called (inlined) function that itself calls a
+    function reached by jal: the loop body's return address must survive"""
+    show = fn("show", 1, [], [wr(var("p0"))], False)
+    report = fn("report", 1, [], [("expr", call("show", var("p0"))), ("expr", call("show", bin_("+", var("p0"), num(100))))], False)
+    main = [("forlist", "e0", [1, 2, 3], [("expr", call("report", var("e0")))]), wr(rd(0), 1)]
+    return prog(["e0"], [show, report], main, ["for_list", "inlined_fn", "called_fn", "nested_call_in_list_loop"])
+
+
+def forlist_nested_and_return(r):
+    """nested loops over constant lists inside a function, left by return from the innermost body"""
+    f = fn("f0", 1, ["l0", "l1"], [("forlist", "l0", [1, 2], [("forlist", "l1", [10, 20], [
+        wr(bin_("+", var("l0"), var("l1")), 1),
+        ("if", [(("cmp", ">", bin_("+", var("l0"), var("l1")), var("p0")), [("return", bin_("+", var("l0"), var("l1")))])], None)])]),
+        ("return", num(0))], True)
+    main = [wr(call("f0", num(11))), wr(call("f0", small(rd(0), 30))), wr(call("f0", num(100)))]
+    return prog([], [f], main, ["for_list", "nested_list_loops", "early_return", "called_fn"])
+
+
+def tail_after_inlined_wrapper_calls_out(r):
+    """a function called twice calls a once-called (inlined) function that itself makes a call, and ends in
+    a bare call: the inlined call clobbers ra, so the last call must not become a jump"""
+    h = fn("h", 1, [], [wr(var("p0"), 2)], False)
+    g = fn("g", 1, [], [("expr", call("h", bin_("+", var("p0"), num(100))))], False)
+    t = fn("t", 1, [], [wr(var("p0"))], False)
+    f = fn("f", 1, [], [("expr", call("g", var("p0"))), ("expr", call("t", bin_("*", var("p0"), num(2))))], False)
+    main = [("expr", call("f", num(1))), ("expr", call("f", small(rd(0), 9))), ("expr", call("h", num(5))), ("expr", call("t", num(6)))]
+    return prog([], [h, g, t, f], main, ["tail_position_call", "inlined_fn", "called_fn", "inlined_callee_with_call"])
+
+
+def computed_range_bounds_body_temps(r):
+    """stop and step of a for-range are computed expressions (kept in temporaries for the whole loop) and
+    the body, on later lines, needs expression temporaries of its own"""
+    main = [("assign", "g0", bin_("+", small(rd(0), 3), num(1))), ("assign", "g1", num(0)),
+            ("forrange", "i0", [bin_("*", var("g0"), num(2))],
+             [("assign", "g1", bin_("+", var("g1"), bin_("*", var("i0"), var("i0")))),
+              wr(bin_("-", bin_("*", var("g1"), num(3)), bin_("*", var("i0"), num(2))), 1)]),
+            ("forrange", "i1", [num(0), bin_("*", var("g0"), num(6)), bin_("+", var("g0"), var("g0"))],
+             [("assign", "g1", bin_("+", bin_("*", var("i1"), num(5)), bin_("*", var("g1"), num(2)))),
+              wr(bin_("+", bin_("*", var("g1"), num(7)), bin_("*", var("i1"), var("i1"))), 2)]),
+            wr(var("g1"))]
+    return prog(["g0", "g1", "i0", "i1"], [], main, ["for_range", "computed_bounds", "body_temporaries"])
+
+
+def device_set_tests(r):
+    """if sdse(d) / if not sdse(d) / if sdns(d) / if not sdns(d), with and without else; also as values"""
+    def t(f, pin):
+        return ("devtest", f, pin)
+    main = [("if", [(t("sdse", 0), [wr(num(1), 1)])], [wr(num(2), 1)]),
+            ("if", [(("not", t("sdse", 1)), [wr(num(3), 1)])], [wr(num(4), 1)]),
+            ("if", [(t("sdns", 2), [wr(num(5), 1)])], None),
+            ("if", [(("not", t("sdns", 3)), [wr(num(6), 1)])], [wr(num(7), 1)]),
+            ("if", [(("not", t("sdse", 0)), [wr(num(8), 2)])], None),
+            wr(t("sdse", 1), 2), wr(t("sdns", 1), 2)]
+    return prog([], [], main, ["device_set_test", "negated_test"])
+
+
+ALL = [device_set_tests, computed_range_bounds_body_temps, forlist_inlined_wrapper_calls_out, forlist_nested_and_return, tail_after_inlined_wrapper_calls_out, param_mutation, param_mutation_twice, alias_outlives_source, alias_chain, callee_via_symbolless_function,
        callee_via_two_symbolless, nested_loops_innermost_only, while_in_for, inlined_return_register, temp_across_call,
        range_down_exact, bound_reread, early_return_with_inner_call, unused_parameter, return_call_tail,
        suffix_named_inlined, modulo_negative, tiny_constants, tail_into_inlined, tail_from_inlined_host, tail_chain,
